@@ -4,6 +4,6 @@ p=$1; shift
 cd /repo
 if [ -n "$(git status --porcelain --untracked-files=no)" ]; then echo "REFUSING: /repo has uncommitted changes to tracked files"; exit 2; fi
 git apply "$p" || { echo "patch does not apply"; exit 2; }
-for id in "$@"; do (cd /verif && ./check $id 2>&1 | grep "^VIOLATION\|^property=" | cut -c1-260); done
+for id in "$@"; do (cd /verif && ./check $id -noev 2>&1 | grep "^VIOLATION\|^property=" | cut -c1-260); done
 git apply -R "$p"
 git status --porcelain --untracked-files=no
